@@ -260,8 +260,8 @@ def _c01_floors(m, tier):
     ne, no = len(m.cov.get("enc_form", {})), len(m.cov.get("open_form", {}))
     if ne < 30:
         out.append("only %d of 30 encryption forms (24 stable + 6 heap/locked) driven" % ne)
-    if no < 30:
-        out.append("only %d of 30 opening forms (24 stable incl. 4 trial-decryption sequences + 6 heap/locked) driven" % no)
+    if no < 32:
+        out.append("only %d of 32 opening forms (26 stable incl. 4 trial-decryption sequences + 6 heap/locked) driven" % no)
     if len(m.cov.get("poly1305_limb_edge_messages", {})) < (8 if tier == "quick" else 16):
         out.append("crafted Poly1305 limb-edge messages: only %d cells built" % len(m.cov.get("poly1305_limb_edge_messages", {})))
     for dim, kv in m.cov.items():
@@ -273,7 +273,7 @@ def _c01_floors(m, tier):
 PROPS["C01"] = dict(
     level="exploration",
     technique="runtime differential monitoring: every encryption/open entry point x container type executed on every message length, ciphertext bytes compared with libsodium, cross-opening in both directions, sealed-box construction re-derived; Python XSalsa20-Poly1305 / X25519 model offline",
-    level_text="30 encryption forms and 30 opening forms (classic easy/detached/in-place/afternm/seal, in-place forms re-tried on the same buffer after a wrong key, and the object API over array, stack, Vec, heap, locked and read-only-locked "
+    level_text="30 encryption forms and 32 opening forms (classic easy/detached/in-place/afternm/seal, in-place forms re-tried on the same buffer after a wrong key, and the object API over array, stack, Vec, heap, locked and read-only-locked "
                "containers) are run on every message length 0..=320 (quick) / 0..=1100 (thorough) plus multi-KiB lengths with seeded keys including all-zero/all-0xff keys and nonces; "
                "each ciphertext must equal libsodium's bytes and each libsodium ciphertext must open. Keys, nonces and contents are sampled; lengths are enumerated.",
     level_note="libsodium is the specification named by the property; sealed boxes are checked by libsodium opening them and by re-deriving nonce = BLAKE2b-24(epk||rpk).",
@@ -299,8 +299,8 @@ def _fault_floors(pid):
         if not any("buffer sized for the genuine message" in k for k in cells):
             out.append("length-changing faults never presented with a caller buffer sized for the genuine message")
         forms = {k.split("|")[0] for k in cells}
-        if len(forms) < 32:
-            out.append("only %d of 32 opening forms (24 AE + 6 heap/locked + 2 stream) reached by faults" % len(forms))
+        if len(forms) < 34:
+            out.append("only %d of 34 opening forms (26 AE + 6 heap/locked + 2 stream) reached by faults" % len(forms))
         return out
     return floors
 
@@ -548,6 +548,59 @@ def _c11_floors(m, tier):
     return [] if n >= 50 else ["only %d of 50 randomised entry points (40 stable + 10 heap/locked) exercised" % n]
 
 
+def _c11_strace(ctx):
+    """conservation oracle for C11: the stable monitor's draw probe runs under strace; between the marker system calls of one
+    entry-point call the getrandom(2) results are summed and must cover the bytes the call returned"""
+    import re
+    import subprocess
+    m = ctx["m"]
+    binary, bt = ctx["build"]("st")
+    logp = os.path.join(ctx["cache"], "logs", ctx["pid"], "strace-c11.log")
+    os.makedirs(os.path.dirname(logp), exist_ok=True)
+    cmd = ["strace", "-f", "-qq", "-s", "200", "-e", "trace=getrandom,write", "-o", logp, binary, "c11", "--tier", "tiny", "--seed", str(ctx["seed"]),
+           "--shard", "0", "--nshards", "1", "--opt", "draw_probe=1"]
+    try:
+        p = subprocess.run(cmd, env=ctx["env"], stdout=subprocess.PIPE, stderr=subprocess.PIPE, text=True, timeout=600)
+    except Exception as e:
+        m.problems.append("strace run failed: %s" % e)
+        return
+    if not os.path.exists(logp):
+        m.problems.append("strace produced no log (rc=%s %s)" % (p.returncode, p.stderr[-200:]))
+        return
+    meta = dict(seed=ctx["seed"], tier=ctx["tier"], monitor="c11(strace)", build="st", shard=-1, nshards=1)
+    cur = None
+    drawn = 0
+    calls = 0
+    seen = 0
+    for line in open(logp, errors="replace"):
+        mm = re.search(r'write\(-1, "VMARK\|(BEGIN|END)\|(.*?)"', line)
+        if mm:
+            parts = mm.group(2).split("|")
+            if mm.group(1) == "BEGIN":
+                cur, drawn, calls = parts[0], 0, 0
+            elif cur is not None:
+                returned = int(parts[-1])
+                seen += 1
+                m.evals += 1
+                d = m.cov.setdefault("draw_conservation", {})
+                d[cur] = d.get(cur, 0) + 1
+                if drawn < returned:
+                    m.add_viol("C11|%s|returns_more_bytes_than_were_drawn_from_the_kernel" % cur, 1,
+                               {"entry_point": cur, "bytes_returned": returned, "bytes_drawn_via_getrandom": drawn, "getrandom_calls": calls,
+                                "observer": "strace -e trace=getrandom between marker system calls"}, meta)
+                cur = None
+            continue
+        g = re.search(r'getrandom\(.*\)\s*=\s*(-?\d+)', line)
+        if g and cur is not None:
+            v = int(g.group(1))
+            if v > 0:
+                drawn += v
+                calls += 1
+    if seen < 10:
+        m.problems.append("strace draw probe: only %d bracketed calls seen (markers or getrandom not visible to strace)" % seen)
+    ctx["extra_cov"]["draw_conservation"] = dict(bracketed_calls=seen)
+
+
 PROPS["C11"] = dict(
     level="exploration",
     technique="runtime history monitoring: N consecutive calls of every randomised entry point, statistical oracle with explicit false-alarm bound (distinctness, non-zero, per-byte variability)",
@@ -555,7 +608,7 @@ PROPS["C11"] = dict(
                "heap / locked / read-only-locked variants on nightly) are each called 256 (quick) / 1024 (thorough) times in a row; no value may repeat, be all-zero, or have a byte position that never changes. Every value must be non-empty and of the announced, constant length; no bit position may be stuck (raw outputs); and after fork(2) parent and child must not draw a common value (each entry point primed once before the fork). "
                "A finite number of calls cannot prove independence; the test detects constant, partially constant, zero and repeating outputs.",
     level_note="False-alarm probability per run < 2^-100 (distinctness and non-zero tests only on values of >= 16 bytes; a byte position constant over 256 uniform draws has probability 256^-255).",
-    runs=lambda tier: [dict(build="st", monitor="c11"), dict(build="ni", monitor="c11", opts=NI_ONLY)],
+    runs=lambda tier: [dict(build="st", monitor="c11"), dict(build="ni", monitor="c11", opts=NI_ONLY), dict(kind="custom", fn=_c11_strace)],
     floors=_c11_floors,
     rule="a case is one (entry point, output component) observed over N calls; distinct by entry point/component; evaluations = oracle applications + calls",
     assumptions=["OS randomness is assumed sound; the property is about the crate actually drawing from it on every call"],
@@ -1027,7 +1080,9 @@ PROPS["C18"] = dict(
                "boundaries, SHA-512, HMAC, Poly1305, SipHash, KDF (all lengths x ids), seeded box key pairs, X25519, kx, box, secretbox, hand-built sealed boxes (nonce derivation), signatures (pure and pre-hashed) "
                "and an Argon2 grid including password lengths that end on BLAKE2b block boundaries. Any differing transcript line or container mismatch is a violation. Four build configurations are compared (stable verif profile, stable plain release, nightly, nightly + simd_backend); the lengths of all 51 public type aliases are compared with libsodium's constants and the length-inferring generic-hash API is run through the stack and protected aliases. Inputs are fixed by the corpus, hence exploration.",
     level_note="Equality with the specifications is decided by C07/C08/C09/C12 on the stable build; C18 adds that the other configurations and container types produce the same bytes.",
-    runs=lambda tier: [dict(kind="custom", fn=_c18_run)],
+    # second run: the nightly half of the C16 monitor (same value, same encoding in stack, heap and locked containers; one
+    # container family reads what the other wrote) - container independence of the serde encodings belongs to both properties
+    runs=lambda tier: [dict(kind="custom", fn=_c18_run), dict(build="ni", monitor="c16", opts=NI_ONLY, tier=("quick" if tier == "thorough" else "tiny"))],
     floors=_c18_floors,
     rule="a case is one probe id (operation, parameters); distinct by id; evaluations = pairwise transcript comparisons + in-process container comparisons",
     assumptions=["only configurations that build on this machine are compared: default, nightly, nightly+simd_backend (x86_64 Linux)"],
